@@ -84,6 +84,10 @@ theorem asm_local (cfg : Config) (sh : Shared) (t : Thread) (rpc pc : Nat) (m : 
     (hloc : ∀ v, t.loc = some v → v = sh.ctr ∧ t.held = true) :
     let r := asmStep cfg sh t m rpc pc hv
     Local cfg r.2 ∧ LockEffect sh r.1 t r.2 ∧ CtrEffect sh r.1 t r.2 := by
+  -- fail fast when the program no longer has the shape the pc-indexed invariant was written for
+  first
+    | (have _hshape : acquireAsm.length = 20 := by decide)
+    | fail "acquireAsm no longer has the 20 instructions the pc-indexed invariant (AsmLocal, asmWon) was written for"
   simp only [Local, hph] at hL
   obtain ⟨rfl, rfl, hheld, hA⟩ := hL
   have hnl : ∀ v, ¬ t.loc = some v := fun v h => by have := (hloc v h).2; simp [hheld] at this
@@ -114,6 +118,10 @@ theorem asm_own (cfg : Config) (sh : Shared) (t : Thread) (rpc pc : Nat) (m : Me
     (¬ Owner t → Owner r.2 → pc = 3 ∧ sh.lock = 0 ∧ r.1.lock = 1) ∧
     (acquireAsm[pc]? = some .ret → Owner t) ∧
     (∀ m' pc', r.2.ph = .go m' pc' → acquireAsm[pc]? = some .ret) := by
+  -- fail fast when the program no longer has the shape the pc-indexed invariant was written for
+  first
+    | (have _hshape : acquireAsm.length = 20 := by decide)
+    | fail "acquireAsm no longer has the 20 instructions the pc-indexed invariant (AsmLocal, asmWon) was written for"
   simp only [Local, hph] at hL
   obtain ⟨rfl, rfl, hheld, hA⟩ := hL
   have hO : Owner t ↔ asmWon pc t := by simp [Owner, hheld, hph]
